@@ -276,9 +276,10 @@ def oracle(ctx, rng, n, max_steps=300):
         d = str(ctx.work / ("ad%d" % ci))
         try:
             inp, r = gi.build_reactor(case, d)
+            gi.sweep(r)
         except SystemExit:
+            ctx.count("adiabatic_case_stopped_by_dassh")
             continue
-        gi.sweep(r)
         ctx.evals += 1
         for a in r.assemblies:
             reg = a.active_region
